@@ -214,6 +214,63 @@ def conv_suffix(N, F, u, sp):
     sx.require(v == exact and isinstance(v, int), "literal-interpreted-inexactly", f"{lit!r} -> {v}, exact {exact}")
 
 
+SPECIAL_NUMS = ["inf", "+inf", "-inf", "Infinity", "infinity", "INF", "nan", "NaN", "-nan", "1e3", "1E3", "1.5e3", "1e-3", "25e-1", "1_000", "1_0.5", "+5", "-5", "-0", "-0.0",
+                ".5", "5.", "00012", "0.0", "1e400", "1e-400", "0x10", "1,000", "1 000", "\u0661\u0662", "\uff11\uff12", "1e", "e3", "--1", "1..2", "", ".", "+", "1e+3", "9" * 25]
+
+
+def conv_special(i, u, sp):
+    """non-finite, exponent, sign, underscore, unicode-digit and malformed numeric parts: accepted only with the exact
+    decimal value (a non-negative whole number of bytes), otherwise rejected with ValueError"""
+    import decimal
+    from fractions import Fraction
+
+    from cubed.utils import convert_to_bytes
+
+    num = SPECIAL_NUMS[sx.conc(i)]
+    unit = ["", "B", "kB", "MB", "GB", "TB", "PB"][sx.conc(u)]
+    lit = {0: num + unit, 1: num + " " + unit, 2: " " + num + unit}[sx.conc(sp)]
+    k = {"": 0, "B": 0, "kB": 1, "MB": 2, "GB": 3, "TB": 4, "PB": 5}[unit]
+    try:
+        v = convert_to_bytes(lit)
+        raised = None
+    except ValueError as ex:
+        raised = ex
+    except IndexError as ex:
+        raised = ex
+    exact = None
+    try:
+        d = decimal.Decimal(num.replace(" ", ""))
+        if d.is_finite():
+            exact = Fraction(d) * 1000**k
+    except (decimal.InvalidOperation, ValueError):
+        exact = None
+    if exact is None or exact.denominator != 1 or exact < 0:
+        sx.require(raised is not None, "literal-without-an-exact-whole-non-negative-value-accepted", f"{lit!r} -> {None if raised else v!r}")
+        return
+    if raised is not None:
+        sx.note(("rejected-although-exact", lit))
+        return
+    sx.require(isinstance(v, int) and not isinstance(v, bool) and v == exact, "literal-interpreted-inexactly", f"{lit!r} -> {v!r}, exact {exact}")
+
+
+def conv_float(k):
+    """float inputs: whole non-negative values are returned exactly as ints, everything else (fractions, negatives, inf, nan) is rejected"""
+    from cubed.utils import convert_to_bytes
+
+    vals = [0.0, -0.0, 1.0, 50.0, 2.0**53, 2.0**60, 1e22, 0.5, 1.1, -1.0, -0.5, float("inf"), float("-inf"), float("nan"), 1e308, 5e-324]
+    x = vals[sx.conc(k)]
+    try:
+        v = convert_to_bytes(x)
+        raised = False
+    except ValueError:
+        raised = True
+    ok = x == x and x not in (float("inf"), float("-inf")) and x >= 0 and x == int(x)
+    if not ok:
+        sx.require(raised, "non-whole-or-negative-or-non-finite-float-accepted", f"{x!r}")
+    else:
+        sx.require(not raised and isinstance(v, int) and v == int(x), "whole-float-not-returned-exactly", f"{x!r}")
+
+
 # ---------------------------------------------------------------------------------------------
 # (ii) + (iii) spec mixing over the discovered entry points
 # ---------------------------------------------------------------------------------------------
@@ -315,6 +372,9 @@ def obligations(tier):
     o.append(Obl("convert_to_bytes[fp-search,<=17-digits]", fp_search, kind="z3", functions=[cu.convert_to_bytes], wall_s=wall,
                  bounds="integer literals below 10**17 with any unit: accepted with a value other than the exact decimal meaning?"))
     nmax = 120 if tier == "quick" else 1200
+    o.append(Obl("convert_to_bytes[special-literals]", conv_special, [("i", 0, len(SPECIAL_NUMS) - 1), ("u", 0, 6), ("sp", 0, 2)], functions=[cu.convert_to_bytes], wall_s=wall,
+                 bounds=f"{len(SPECIAL_NUMS)} special numeric spellings (non-finite, exponents, signs, underscores, unicode digits, malformed) x every valid unit x 3 whitespace variants (value-forked catalogue)"))
+    o.append(Obl("convert_to_bytes[float]", conv_float, [("k", 0, 15)], functions=[cu.convert_to_bytes], wall_s=120, bounds="16 boundary floats (whole, fractional, negative, +-inf, nan, 2**53, 1e308, denormal)"))
     o.append(Obl("convert_to_bytes[large-literals]", conv_suffix, [("N", 10**6, 10**6 + 40), ("F", 0, 1), ("u", 0, 6), ("sp", 0, 0)], functions=[cu.convert_to_bytes],
                  wall_s=wall, bounds="rendered literals 2**53 + 0..40 with 0..1 fraction digits and every valid unit (value-forked)"))
     o.append(Obl("convert_to_bytes[large-literals-1e16]", conv_suffix, [("N", 2 * 10**6, 2 * 10**6 + 40), ("F", 0, 1), ("u", 0, 6), ("sp", 0, 0)], functions=[cu.convert_to_bytes],
